@@ -69,7 +69,7 @@ func pow(b, e uint64) uint64 {
 }
 
 func (prop) Gen(r *core.Rand, tier string) []core.Case {
-	nEnc, nBigPad, nChunk, nSyn, nPipe := 40, 3, 6, 24, 6
+	nEnc, nBigPad, nChunk, nSyn, nPipe := 40, 2, 5, 16, 6
 	if tier == "thorough" {
 		nEnc, nBigPad, nChunk, nSyn, nPipe = 400, 30, 60, 400, 30
 	}
